@@ -28,6 +28,14 @@ def tables(model: Model) -> Dict[str, List[Tuple[object, str, int]]]:
     return out
 
 
+def _wrapped(fn, call: ast.Call) -> bool:
+    """`call` is the direct argument of a resolving accessor somewhere in fn."""
+    for n in ast.walk(fn.node):
+        if isinstance(n, ast.Call) and (dotted(n.func) or "") in ("resolve1", "int_value", "bool_value", "num_value") and n.args and n.args[0] is call:
+            return True
+    return False
+
+
 def run(model: Model, rep: Report) -> None:
     rep.explanation = (
         "C19: the MODE, WHITE and BLACK code sets are reconstructed from the BitParser.add calls of the class body and compared, entry by entry, "
@@ -97,11 +105,39 @@ def run(model: Model, rep: Report) -> None:
     modes = {v for (v, _, _) in tabs["MODE"]}
     r2.check({0, 1, -1, 2, -2, 3, -3, "h", "p", "e"} <= modes, st0, C + "CCITTG4Parser.MODE", "MODE defines pass, horizontal, V0, VR1-3, VL1-3 and EOFB", why=f"{sorted(map(str, modes))}")
     # ---------------------------------------------------------------- R3
-    r3 = rep.rule("C19-R3", "BIND", "decoder parameters come from Columns / EncodedByteAlign / BlackIs1; only K = -1 is decoded", 3)
+    r3 = rep.rule("C19-R3", "BIND", "decoder parameters come from Columns (default 1728) / EncodedByteAlign / BlackIs1, resolved if indirect; only K = -1 is decoded", 5)
     cf = model.func(C + "ccittfaxdecode")
     s = "".join(unparse(cf.node).split())
-    ok = "K=params.get('K')" in s and "ifK==-1:" in s and "cols=cast(int,params.get('Columns'))" in s and "bytealign=cast(bool,params.get('EncodedByteAlign'))" in s and "reversed=cast(bool,params.get('BlackIs1'))" in s and "CCITTFaxDecoder(cols,bytealign=bytealign,reversed=reversed)" in s and "raisePDFValueError(K)" in s
-    r3.check(ok, site(cf), cf.qualname, "K == -1 -> CCITTFaxDecoder(Columns, bytealign=EncodedByteAlign, reversed=BlackIs1); other K rejected", why="parameter binding changed")
+    gets: Dict[str, ast.Call] = {}
+    bound: Dict[str, str] = {}
+    for n in walk_no_nested(cf.node):
+        if isinstance(n, ast.Assign) and len(n.targets) == 1 and isinstance(n.targets[0], ast.Name):
+            for c in ast.walk(n.value):
+                if isinstance(c, ast.Call) and (dotted(c.func) or "") == f"{cf.params[1]}.get" and c.args and isinstance(c.args[0], ast.Constant):
+                    gets[c.args[0].value] = c
+                    bound[c.args[0].value] = n.targets[0].id
+    if not {"K", "Columns", "EncodedByteAlign", "BlackIs1"} <= set(gets):
+        raise AnchorMissing("ccittfaxdecode: reads of K / Columns / EncodedByteAlign / BlackIs1 not found")
+    call = [c for c in walk_no_nested(cf.node) if isinstance(c, ast.Call) and (dotted(c.func) or "") == "CCITTFaxDecoder"]
+    okb = bool(call) and [unparse(a) for a in call[0].args] == [bound["Columns"]] and {k.arg: unparse(k.value) for k in call[0].keywords} == {"bytealign": bound["EncodedByteAlign"], "reversed": bound["BlackIs1"]}
+    okk = f"if{bound['K']}==-1:" in s and f"raisePDFValueError({bound['K']})" in s
+    r3.check(okb and okk, site(cf), cf.qualname, "K == -1 -> CCITTFaxDecoder(Columns, bytealign=EncodedByteAlign, reversed=BlackIs1); other K rejected", why="parameter binding changed")
+    cd = gets["Columns"]
+    dflt = cd.args[1] if len(cd.args) > 1 else None
+    r3.check(isinstance(dflt, ast.Constant) and dflt.value == 1728, site(cf, cd), cf.qualname, "Columns defaults to 1728 (ISO 32000-1 Table 11)", why=f"`{unparse(cd)}`: a stream that leaves /Columns out - as it may for the standard fax width - has no width (None) and cannot be decoded")
+    # the values may be indirect references: they are resolved before they are compared / used as numbers and flags
+    dec = model.func("pdfminer.pdftypes.PDFStream.decode")
+    cc = [c for c in walk_no_nested(dec.node) if isinstance(c, ast.Call) and (dotted(c.func) or "") == "ccittfaxdecode"]
+    if not cc:
+        raise AnchorMissing("PDFStream.decode: call of ccittfaxdecode not found")
+    for c in cc:
+        a = c.args[1] if len(c.args) > 1 else None
+        if isinstance(a, ast.Name):
+            ds = [n.value for n in walk_no_nested(dec.node) if isinstance(n, ast.Assign) and len(n.targets) == 1 and unparse(n.targets[0]) == a.id and isinstance(n.value, ast.DictComp)]
+            a = ds[-1] if ds else a
+        okr = isinstance(a, ast.DictComp) and isinstance(a.value, ast.Call) and (dotted(a.value.func) or "") in ("resolve1", "resolve_all") and len(a.generators) == 1
+        inside = all("".join(unparse(g).split()).startswith(("resolve1(", "int_value(", "bool_value(", "num_value(")) or _wrapped(cf, g) for g in gets.values())
+        r3.check(okr or inside, site(dec, c), dec.qualname, f"{unparse(c)[:80]} : the parameter values are resolved (resolve1) before ccittfaxdecode compares and uses them", why="a parameter given as an indirect reference reaches the decoder as a PDFObjRef: /BlackIs1 and /EncodedByteAlign pointing at `false` count as true, /K and /Columns raise")
     di = model.func(C + "CCITTFaxDecoder.__init__")
     s2 = "".join(unparse(di.node).split())
     r3.check("CCITTG4Parser.__init__(self,width,bytealign=bytealign)" in s2 and "self.reversed=reversed" in s2, site(di), di.qualname, "width and bytealign are handed to the parser; reversed is kept for output", why="changed")
